@@ -343,6 +343,8 @@ class Grammar:
             for prod in prods:
                 weights[prod] += learning_rate * extra_weights[prod]
                 total_weights += weights[prod]
+            if total_weights == 0:  # e.g., a rule reduced to zero-weight productions in a sub-grammar
+                continue
             for prod in prods:
                 weights[prod] = weights[prod] / total_weights
 
